@@ -24,8 +24,8 @@ func main() { vk.Main("C13", run) }
 
 func run(r *vk.Run) {
 	maxMsg := r.Pick(2, 3)
-	randomN := r.Pick(1500, 60000)
-	aliasN := r.Pick(60, 1500)
+	randomN := r.Pick(1500, 400000)
+	aliasN := r.Pick(60, 4000)
 	r.Describe(fmt.Sprintf("lock-step call scripts over the five call shapes (unary via Invoke, server-streaming, client-streaming, bidirectional through the generated TestApi client; the unary method through NewStream). "+
 		"Bounded grid, enumerated completely: for message counts 0..%d per direction the canonical script and every valid script obtained by inserting a header event (SetHeader, SendHeader, both, twice, SendHeader(nil)), a trailer event or a client Header() at every position, "+
 		"ending the handler at every position with each of %d error kinds (status, plain error, context errors, empty message, wrapped status, long message) or nil, the client cancelling or its deadline expiring at every position followed by every order of {client reads outcome, server observes (ctx / Recv) and returns ctx error | other error | nil}, "+
@@ -33,7 +33,8 @@ func run(r *vk.Run) {
 		"Each script runs on a bufconn gRPC connection and on wrap.ServerToClient with the same handler; compared: response messages and order, terminal outcome, header metadata (while open and at the end), trailer metadata, server-received messages; wrapped side only: hang and leftover pkg/wrap goroutines at a quiescent point. "+
 		"Plus: unknown methods and all 16 (method shape x requested shape) combinations; %d x 4 aliasing scenarios with random TestAllTypes messages (same and different descriptor identity) with in-place mutation of every reachable value after the call. "+
 		"A case is distinct by its shape and step sequence; trivial cases are not counted separately because every script contains a complete call.", maxMsg, len(errKinds), randomN, aliasN),
-		"lock-step: a step starts only after every party of the previous step has returned; a message send always has its receiver already waiting or starting concurrently; a SendHeader on the real transport is followed by a quiescent point so that the frame has reached the client's transport before anything else happens",
+		"lock-step: a step starts only after every party of the previous step has returned; a message send always has its receiver already waiting or starting concurrently; a SendHeader (and the SendAndClose of a client-streaming handler) on the real transport is followed by a quiescent point so that the frames have reached the client's transport before anything else happens",
+		"the steps 'client starts its final blocking call' and 'client context ends' are followed by a quiescent point on both transports: the step is complete when every goroutine reacting to it has done so (the client is parked inside the call; cancellation has propagated)",
 		"the only asynchronous call is the client's final blocking call of the single-response shapes (Invoke, CloseAndRecv, RecvMsg of unary-as-stream), awaited where the script says CR",
 		"terminal outcomes are normalised: context.Canceled / codes.Canceled and context.DeadlineExceeded / codes.DeadlineExceeded are classes; everything else is status.FromError code + message",
 		"metadata: keys content-type, user-agent, grpc-*, :pseudo and the harness's own x-scn are transport keys and ignored; all other keys are compared with their value lists",
